@@ -173,6 +173,30 @@ def reqOfJson (j : Json) : Except String Req := do
   | "listOptimal" => return .listOptimal o s
   | _ => throw s!"unknown request {op}"
 
+def resultOfJson (j : Json) : Except String OpResult :=
+  match j with
+  | .null => pure .none
+  | .str "error" => pure .error
+  | _ => do let a ← fromJson? (α := Array Nat) j; pure (.trials a.toList)
+
+def opOfJson (j : Json) : Except String SugOp := do
+  return { client := ← getStr j "client", num := ← getNat j "num", done := ← getBool j "done",
+           result := ← resultOfJson ((j.getObjVal? "result").toOption.getD .null) }
+
+def esOpOfJson (j : Json) : Except String EsOp := do
+  return { trialId := ← getNat j "trial", active := ← getBool j "active", shouldStop := ← getBool j "stop" }
+
+def studyOfJson (j : Json) : Except String Study := do
+  return { owner := ← getStr j "owner", sid := ← getStr j "sid", state := ← sstateOf (← getStr j "state"),
+           spec := ← getNat j "spec", md := ← mdOfJson (← j.getObjVal? "md"),
+           trials := ← (← getArr j "trials").toList.mapM trialOfJson,
+           sugOps := ← (← getArr j "ops").toList.mapM opOfJson,
+           esOps := ← (← getArr j "es").toList.mapM esOpOfJson }
+
+def dbOfJson (j : Json) : Except String DB := do
+  return { owners := (← fromJson? (α := Array String) (← j.getObjVal? "owners")).toList,
+           studies := ← (← getArr j "studies").toList.mapM studyOfJson, orphans := [] }
+
 def cfgOfJson (j : Json) : Cfg :=
   let b (k : String) (d : Bool) := (j.getObjValAs? Bool k).toOption.getD d
   { suggestCatchesAll := b "suggestCatchesAll" true, shortDeliveryOk := b "shortDeliveryOk" true,
